@@ -203,7 +203,7 @@ int main(int argc, char **argv) {
     FILE *f = fopen(argv[1], "r");
     if (!f) { perror(argv[1]); return 98; }
     char *line = NULL; size_t cap = 0;
-    char reporter_kind[32] = "text"; static char single[8192] = ""; int run_single = 0;
+    char reporter_kind[32] = "text"; static char single[8192] = ""; int run_single = 0, run_twice = 0;
     int lineno = 0;
     while (getline(&line, &cap, f) > 0) {
         lineno++;
@@ -211,7 +211,7 @@ int main(int argc, char **argv) {
         for (char *p = strtok(line, " \t\n"); p && nt < 8; p = strtok(NULL, " \t\n")) tok[nt++] = p;
         if (nt == 0 || tok[0][0] == '#') continue;
         if (!strcmp(tok[0], "reporter")) strcpy(reporter_kind, tok[1]);
-        else if (!strcmp(tok[0], "run")) { if (!strcmp(tok[1], "single")) { run_single = 1; strcpy(single, tok[2]); } }
+        else if (!strcmp(tok[0], "run")) { if (!strcmp(tok[1], "single")) { run_single = 1; strcpy(single, tok[2]); } else if (!strcmp(tok[1], "twice")) run_twice = 1; }
         else if (!strcmp(tok[0], "log")) logfd = open(tok[1], O_WRONLY | O_CREAT | O_APPEND, 0644);
         else if (!strcmp(tok[0], "kill")) { strcpy(kill_test, tok[1]); strcpy(kill_point, tok[2]); kill_nth = atoi(tok[3]); strcpy(kill_how, tok[4]); }
         else if (!strcmp(tok[0], "S")) {
@@ -265,6 +265,10 @@ int main(int argc, char **argv) {
     orig_finish_suite = rep->finish_suite; rep->finish_suite = probe_finish_suite;
     int status = run_single ? run_single_test(suites[0].suite, single, rep) : run_test_suite(suites[0].suite, rep);
     logev("verdict", status == 0 ? "0" : "1");
+    if (run_twice) {            /* the same reporter object serves a second run */
+        status = run_test_suite(suites[0].suite, rep);
+        logev("verdict", status == 0 ? "0" : "1");
+    }
     fflush(NULL);
     (*rep->destroy)(rep);
     return status;
